@@ -54,14 +54,14 @@ func (h *h5State) stateBogusComment2() bool {
 			return true
 		}
 
-		if h.s[h.pos+index+1] != byteGT {
+		if h.s[pos+index+1] != byteGT {
 			pos = pos + index + 1
 			continue
 		}
 
 		// ends in %>
 		h.tokenStart = h.s[h.pos:]
-		h.tokenLen = index
+		h.tokenLen = pos + index - h.pos
 		h.pos = pos + index + 2
 		h.state = h.stateData
 		h.tokenType = html5TypeTagComment
